@@ -34,7 +34,8 @@ F_REPLAY = 101
 
 
 def fval(x):
-    return 7 * x + 1
+    """value returned for configuration x: job 1 returns the falsy 0, job 0 a negative value (both legal outputs)"""
+    return 7 * (x - 1)
 
 
 # ------------------------------------------------------------------ serial backend with a conductor
